@@ -211,4 +211,13 @@ impl<'a, T: 'a + PacketTrait> PacketTrait for &'a T {
     fn packet_header(&self) -> &PacketHeader {
         (*self).packet_header()
     }
+
+    // a reference writes what the value writes (`Packet` overrides these two)
+    fn to_writer_with_header<W: io::Write>(&self, writer: &mut W) -> Result<()> {
+        (*self).to_writer_with_header(writer)
+    }
+
+    fn write_len_with_header(&self) -> usize {
+        (*self).write_len_with_header()
+    }
 }
